@@ -79,6 +79,20 @@ class Project:
         rc, out = self.bob('query-path', '-f', '{%s}' % label, *(['--release'] if release else ['--develop']), package)
         lines = [l for l in out.strip().split('\n') if l and not l.startswith('WARNING') and 'conda' not in l]
         return lines[-1] if lines else None
+    def paths(self):
+        """package path -> {label: workspace} as bob's own query-path reports them (one query per label: a line is
+        omitted when any placeholder of the format has no directory)"""
+        import concurrent.futures as cf
+        res = {}
+        def one(label):
+            rc, out = self.bob('query-path', '-f', '{name}|{%s}' % label, '//*')
+            return label, out
+        with cf.ThreadPoolExecutor(max_workers=3) as ex:
+            for label, out in ex.map(one, ('src', 'build', 'dist')):
+                for l in out.split('\n'):
+                    parts = l.strip().split('|')
+                    if len(parts) == 2 and parts[1] and ' ' not in parts[0]: res.setdefault(parts[0], {})[label] = parts[1]
+        return res
     def audit(self, ws):
         f = os.path.join(self.dir, os.path.dirname(ws), 'audit.json.gz')
         if not os.path.exists(f): return None
@@ -121,16 +135,38 @@ def gen_model(rnd, n=None):
         if rnd.random() < .3:
             r['provideVars'] = {'P%d' % i: 'provided-${%s}' % v}
         recipes[name] = r
-    return {'recipes': recipes, 'config': {}}
+    # a tool whose *content* (not its recipe) can change, used only by package scripts of some recipes
+    if rnd.random() < .6:
+        recipes['tool'] = {'environment': {'TV': 'tv0'}, 'buildVars': ['TV'],
+                           'buildScript': 'echo "#!/bin/sh" > gen.sh\necho "echo generated-by-tool-$(cat %s)" >> gen.sh\nchmod +x gen.sh\n' % 'TOOLSRC',
+                           'packageScript': 'cp "$1"/gen.sh .\n', 'provideTools': {'gen': '.'}}
+        # the tool reads a source file that lives in the project (import SCM): editing it changes only the tool's content
+        recipes['tool']['checkoutSCM'] = {'scm': 'import', 'url': 'toolsrc', 'prune': True}
+        recipes['tool']['buildScript'] = recipes['tool']['buildScript'].replace('TOOLSRC', '"$1"/version.txt')
+        users = [n_ for n_ in recipes if n_ != 'tool' and rnd.random() < .5] or ['r0']
+        for u in users:
+            r = recipes[u]
+            r.setdefault('depends', []).append({'name': 'tool', 'use': ['tools']})
+            r['packageTools'] = ['gen']
+            r['packageScript'] = r['packageScript'] + 'gen.sh >> result.txt\n'
+    files = {'toolsrc/version.txt': 'v1\n'} if 'tool' in recipes else {}
+    # a library that is reached in several variants (different FLAVOR per dependency edge)
+    if rnd.random() < .6:
+        recipes['lib'] = {'packageVars': ['FLAVOR'], 'buildVars': ['FLAVOR'], 'buildScript': 'echo "lib flavor ${FLAVOR}" > out.txt\n',
+                          'packageScript': 'cp "$1"/out.txt result.txt\n'}
+        parents = [n_ for n_ in sorted(recipes) if n_.startswith('r')]
+        for i_, pn in enumerate(rnd.sample(parents, min(len(parents), rnd.randint(2, 3)))):
+            recipes[pn].setdefault('depends', []).append({'name': 'lib', 'environment': {'FLAVOR': 'f%d' % i_}})
+    return {'recipes': recipes, 'config': {}, 'files': files}
 
-EDITS = ['script-comment', 'script-semantic', 'var-value', 'checkout-comment', 'add-dep', 'remove-dep', 'pkg-script', 'revert']
+EDITS = ['script-comment', 'script-semantic', 'var-value', 'checkout-comment', 'add-dep', 'remove-dep', 'pkg-script', 'revert', 'tool-source', 'lib-flavor', 'lib-flavor']
 
 def apply_edit(rnd, model, history):
     """returns (new model, description); never mutates the input"""
     m = copy.deepcopy(model)
     names = sorted(m['recipes'])
     kind = rnd.choice(EDITS)
-    name = rnd.choice(names); r = m['recipes'][name]
+    name = rnd.choice([n for n in names if n.startswith('r')]); r = m['recipes'][name]
     if kind == 'script-comment': r['buildScript'] = '# note %d\n' % rnd.randint(0, 99) + r['buildScript']
     elif kind == 'script-semantic': r['buildScript'] += 'echo extra%d >> out.txt\n' % rnd.randint(0, 9)
     elif kind == 'var-value':
@@ -138,10 +174,16 @@ def apply_edit(rnd, model, history):
     elif kind == 'checkout-comment' and 'checkoutScript' in r: r['checkoutScript'] = '# reviewed %d\n' % rnd.randint(0, 99) + r['checkoutScript']
     elif kind == 'pkg-script': r['packageScript'] += 'echo pkg%d >> result.txt\n' % rnd.randint(0, 9)
     elif kind == 'add-dep':
-        i = int(name[1:]); cands = [n for n in names if int(n[1:]) > i and n not in r.get('depends', [])]
+        i = int(name[1:]); cands = [n for n in names if n.startswith('r') and int(n[1:]) > i and n not in r.get('depends', [])]
         if cands: r.setdefault('depends', []).append(rnd.choice(cands))
-    elif kind == 'remove-dep' and r.get('depends') and not (name == 'r0' and len(r['depends']) == 1):
-        r['depends'].remove(rnd.choice(r['depends']))
+    elif kind == 'remove-dep' and [d for d in r.get('depends', []) if isinstance(d, str)] and not (name == 'r0' and len(r['depends']) == 1):
+        r['depends'].remove(rnd.choice([d for d in r['depends'] if isinstance(d, str)]))
         if not r['depends']: del r['depends']
+    elif kind == 'tool-source' and m.get('files'):
+        m['files']['toolsrc/version.txt'] = 'v%d\n' % rnd.randint(2, 99); name = 'tool'
+    elif kind == 'lib-flavor' and 'lib' in m['recipes']:
+        edges = [(pn, d) for pn, pr in sorted(m['recipes'].items()) for d in pr.get('depends', []) if isinstance(d, dict) and d.get('name') == 'lib']
+        if edges:
+            pn, d = rnd.choice(edges); d['environment']['FLAVOR'] = 'g%d' % rnd.randint(0, 9); name = pn
     elif kind == 'revert' and history: return copy.deepcopy(rnd.choice(history)), 'revert'
     return m, '%s %s' % (kind, name)
